@@ -645,6 +645,9 @@ func (tr *trans) applyContract(fc *FuncContract, sig *types.Signature, key strin
 	}
 	short := key[strings.LastIndex(key, "/")+1:]
 	np := 0
+	// preconditions that are neither proved nor assumed here (callee opted them out for this caller): the
+	// postcondition is then only known under them
+	var unproved []Term
 	for _, it := range fc.Items {
 		switch it.Kind {
 		case "let":
@@ -670,7 +673,11 @@ func (tr *trans) applyContract(fc *FuncContract, sig *types.Signature, key strin
 			if need := fc.Opts["pre_only_if"]; !assumed && (need == "" || (tr.fc != nil && tr.fc.Opts[need] == "true")) {
 				tr.oblige("pre", fmt.Sprintf("%s[%s]@%s", short, label, tr.srcText(pos)), g, pos)
 			} else if !assumed {
-				tr.note("preconditions of " + key + " are assumed in functions that do not opt in with `opt " + fc.Opts["pre_only_if"] + "`")
+				tr.note("preconditions of " + key + " are not checked in functions that do not opt in with `opt " + fc.Opts["pre_only_if"] + "`; its postcondition is used only where they hold")
+				if fc.Opts["total_post"] != "true" {
+					unproved = append(unproved, env.elabBool(it.E))
+				}
+				continue
 			}
 			tr.vc.assume(g)
 		}
@@ -740,9 +747,9 @@ func (tr *trans) applyContract(fc *FuncContract, sig *types.Signature, key strin
 			case "let":
 				env2.lets[it.Name] = it.E
 			case "ensures":
-				tr.vc.assume(implies(reach, env2.elabBool(it.E)))
+				tr.vc.assume(implies(and(append([]Term{reach}, unproved...)...), env2.elabBool(it.E)))
 			case "defines":
-				tr.vc.assume(implies(reach, env2.elabBool(it.E)))
+				tr.vc.assume(implies(and(append([]Term{reach}, unproved...)...), env2.elabBool(it.E)))
 				tr.note("ghost-state definition of " + key + ": " + it.Src)
 			}
 		}
